@@ -1,8 +1,8 @@
 #!/bin/bash
-# run every claimed check (tier from $1, default quick), up to 6 in parallel; summary at the end
+# run every claimed check (tier from $1, default quick; seed from $2, default 0), up to 6 in parallel; summary at the end
 cd "$(dirname "$0")"
-tier="${1:-quick}"
+tier="${1:-quick}"; seed="${2:-0}"
 ids=$(python3 -c "import json;print(' '.join(c['property_id'] for c in json.load(open('MANIFEST.json'))['checks']))")
 mkdir -p /tmp/verif_runall
-printf '%s\n' $ids | xargs -P 6 -I{} bash -c "./check {} --tier $tier > /tmp/verif_runall/{}.log 2>&1; echo {} exit=\$? \$(tail -1 /tmp/verif_runall/{}.log)"
+printf '%s\n' $ids | xargs -P 6 -I{} bash -c "./check {} --tier $tier --seed $seed > /tmp/verif_runall/{}.log 2>&1; echo {} exit=\$? \$(tail -1 /tmp/verif_runall/{}.log)"
 grep -h "VIOLATION\|KNOWN-FINDING\|INFRASTRUCTURE" /tmp/verif_runall/*.log; true
